@@ -5,7 +5,17 @@ plus the replay law on the (index, removed, added) notifications seen by a raw
 notifier.  Exhaustive over small lengths / indices / slices, then random
 histories for state dependence.  See DESIGN.md section 4 / C05.
 """
+import decimal
+import fractions
 import itertools
+import numbers
+import operator
+import sys
+
+try:
+    import numpy as np
+except Exception:          # the numpy representatives are skipped (their gate then fails)
+    np = None
 
 from traits.api import HasTraits, List, Instance, TraitError
 from traits.trait_list_object import TraitList
@@ -20,7 +30,18 @@ META = {
              "List(Instance) trait), enumerated exhaustively for L<=Lmax, plus random 25-op "
              "histories (items include equal-but-distinct twins and NaN-likes), plus histories in "
              "which a listener reacts to an event with 1-3 further operations on the same list "
-             "while a mirror registered first rebuilds the contents from the events it receives. "
+             "while a mirror registered first rebuilds the contents from the events it receives, plus "
+             "the odd-argument strata: every operation taking a position / count / multiplier "
+             "(t[k]=x, del t[k], insert, pop, *=, sort(reverse=), and each of start / stop / step of "
+             "a slice in assignment and deletion) given every value of a catalogue of non-int "
+             "arguments (None, floats incl. integral ones, nan, +-inf, bool, Fraction, Decimal, str, "
+             "bytes, tuple, list, slice, complex, objects whose __index__ returns in-range / "
+             "out-of-range / huge / non-int values or raises, int subclasses, numpy integers / "
+             "floats / bools, ints beyond the size range) on lists of length 0..Lodd in all 7 "
+             "flavours, with the built-in list deciding acceptance, exception class and "
+             "'untouched on failure', and 25-op histories in which about half of the operations "
+             "carry such an argument (odd_* counters; combinations hitting an open finding run in "
+             "their own strata oddx-index / oddx-step / oddx-inf). "
              "distinct_nontrivial counts distinct (flavour, op, index-shape class, "
              "outcome class, event-shape class) signatures of cases in which the list changed, an "
              "event was emitted or an exception was raised."),
@@ -29,16 +50,26 @@ META = {
         "quick": {"evaluations": 200000, "events_replayed": 50000, "failures_checked": 20000,
                   "slice_events": 2000, "history_ops": 20000, "unwatched_evaluations": 30000,
                   "twin_ops": 3000, "reent_outer_ops": 8000, "reent_reactions": 6000,
-                  "reent_ops_with_two_or_more_reactions": 2000, "reent_events_replayed": 10000},
+                  "reent_ops_with_two_or_more_reactions": 2000, "reent_events_replayed": 10000,
+                  "odd_evaluations": 50000, "odd_list_raises": 45000, "odd_list_accepts": 20000,
+                  "odd_slice_component_evaluations": 40000, "odd_numpy_evaluations": 10000,
+                  "odd_history_ops": 15000, "odd_reserved_index_evaluations": 1000,
+                  "odd_reserved_step_evaluations": 250, "odd_reserved_inf_evaluations": 4},
         "thorough": {"evaluations": 10000000, "events_replayed": 3000000, "failures_checked": 1000000,
                      "slice_events": 100000, "history_ops": 3000000,
                      "unwatched_evaluations": 800000, "twin_ops": 150000,
                      "reent_outer_ops": 800000, "reent_reactions": 600000,
                      "reent_ops_with_two_or_more_reactions": 200000,
-                     "reent_events_replayed": 1000000},
+                     "reent_events_replayed": 1000000,
+                     "odd_evaluations": 80000, "odd_list_raises": 900000, "odd_list_accepts": 400000,
+                     "odd_slice_component_evaluations": 60000, "odd_numpy_evaluations": 18000,
+                     "odd_history_ops": 1200000, "odd_reserved_index_evaluations": 1800,
+                     "odd_reserved_step_evaluations": 400, "odd_reserved_inf_evaluations": 8},
     },
     "exhaustive_parts": "all single operations on lists of length 0..5 (quick) / 0..8 (thorough) "
-                        "over the index/slice/replacement grid described in rule",
+                        "over the index/slice/replacement grid described in rule; every catalogued "
+                        "odd-typed argument at every operation taking a position / count / multiplier "
+                        "on lists of length 0..5 (quick) / 0..8 (thorough)",
     "assumptions": ["built-in list is the sequential specification",
                     "items are compared by identity; validators are pure functions"],
 }
@@ -257,6 +288,15 @@ def apply_op(target, op, validate):
         return None
     if name == "remove_obj":
         return target.remove(op[1])
+    # odd-typed arguments: the key is taken literally (a tuple is a tuple, not a slice spec)
+    if name == "setitem_lit":
+        target[op[1]] = v(op[2])
+        return None
+    if name == "delitem_lit":
+        del target[op[1]]
+        return None
+    if name == "sort_rev":
+        return target.sort(reverse=op[1])
     if name == "clear":
         return target.clear()
     if name == "reverse":
@@ -279,7 +319,7 @@ def raw_items(op):
     name = op[0]
     if name == "setitem":
         return list(op[2]) if isinstance(op[1], tuple) else [op[2]]
-    if name in ("insert",):
+    if name in ("insert", "setitem_lit"):
         return [op[2]]
     if name == "append":
         return [op[1]]
@@ -329,8 +369,12 @@ def idx_class(op, L):
     return "-"
 
 
-def check_one(ctx, flavour, tl, model, op, events, holder=None):
-    """Run op on tl and model, judge.  Returns complaint key or None."""
+def check_one(ctx, flavour, tl, model, op, events, holder=None, odd=None, extra_ok=(), rekey=None):
+    """Run op on tl and model, judge.  Returns complaint key or None.
+
+    odd: class label of the odd-typed index / count / multiplier argument of op (odd strata);
+    extra_ok: exception classes accepted besides the one the model raises; rekey: maps a
+    complaint of a stratum reserved for an open finding to that finding's mechanism key."""
     validate = FLAVOURS[flavour]
     before = list(tl)
     L = len(before)
@@ -370,7 +414,7 @@ def check_one(ctx, flavour, tl, model, op, events, holder=None):
     elif rm[0] == "exc":
         if rr[0] != "exc":
             complaint = "list-raises-traitlist-does-not"
-        elif rr[1] is not rm[1]:
+        elif rr[1] is not rm[1] and rr[1] not in extra_ok:
             complaint = "wrong-exception-class"
         elif [id(x) for x in after] != [id(x) for x in before]:
             complaint = "changed-on-failure"
@@ -388,6 +432,15 @@ def check_one(ctx, flavour, tl, model, op, events, holder=None):
     if rr[0] == "exc":
         ctx.count("failures_checked")
     quiet = flavour.startswith("q-")
+    if odd is not None:
+        ctx.count("odd_list_raises" if rm[0] == "exc" else "odd_list_accepts")
+        # "index is a non-negative integer": an integer-like position the operation was given
+        # (True, an int subclass, a numpy integer) may come back as it is; judged by its value
+        for n_, ev_ in enumerate(events):
+            i_ = ev_[0]
+            if type(i_) is not int and isinstance(i_, numbers.Integral):
+                events[n_] = (operator.index(i_),) + tuple(ev_[1:])
+                ctx.count("odd_events_with_integral_nonint_index")
     if quiet:
         ctx.count("unwatched_evaluations")
         if len(getattr(tl, "notifiers", ())) != 0:
@@ -411,10 +464,14 @@ def check_one(ctx, flavour, tl, model, op, events, holder=None):
     if changed or events or rr[0] == "exc":
         evshape = tuple(("s" if isinstance(e[0], slice) else "i", min(len(e[1]), 3), min(len(e[2]), 3))
                         for e in events[:2])
-        ctx.sig(flavour, op[0], idx_class(op, L), min(L, 3),
+        ctx.sig(flavour, op[0], idx_class(op, L) if odd is None else "odd:" + odd.split("+")[0], min(L, 3),
                 rr[0] if rr[0] == "ok" else rr[1].__name__, evshape, bad)
     if complaint:
         key = "%s/%s" % (op[0] + ("-slice" if len(op) > 1 and isinstance(op[1], tuple) else ""), complaint)
+        if odd is not None:
+            key = "odd:%s%s[%s]/%s" % (op[0], "-slice" if "@" in odd else "", odd, complaint)
+            if rekey is not None:
+                key = rekey(complaint, rr, changed, events) or key
         ctx.violation(key, "%s on %s list of length %d: op=%r model=%r real=%r events=%r before=%r after=%r"
                       % (complaint, flavour, L, op, rm, rr, events[:3], before, after),
                       {"flavour": flavour, "before": before, "op": op, "events": events[:3],
@@ -569,6 +626,250 @@ def random_op(rng, L, flavour):
                            ("append_twin", rng.randrange(64)), ("insert_twin", idx(), rng.randrange(64)),
                            ("remove_twin", rng.randrange(64)), ("extend_twin",)])
     return ("append", item())
+
+
+# ---- odd-typed index / count / multiplier arguments -------------------------------------------
+# Every operation that takes a position, a count or a multiplier also receives values that are
+# not plain ints.  The built-in list decides what happens (which of them it reads as integers
+# through the index protocol, which exception class it raises for the others); the TraitList
+# has to hold the same contents, raise the same class and be untouched where the list raises.
+
+class IndexOnly:
+    """implements the index protocol and nothing else (no ordering, no arithmetic).  `v` is the
+    value __index__ returns, or an exception class it raises"""
+    __slots__ = ("v",)
+
+    def __init__(self, v):
+        self.v = v
+
+    def __index__(self):
+        if isinstance(self.v, type):
+            raise self.v("index protocol refuses")
+        return self.v
+
+    def __repr__(self):
+        return "IndexOnly(%s)" % (self.v.__name__ if isinstance(self.v, type) else repr(self.v))
+
+
+class SubInt(int):
+    pass
+
+
+class SubIntOwnIndex(int):
+    """an int subclass whose __index__ disagrees with its value (list reads the value)"""
+
+    def __index__(self):
+        return 0
+
+
+def _odd_values():
+    out = []
+
+    def add(cls, *vals):
+        out.extend((cls, v) for v in vals)
+    nan, inf = float("nan"), float("inf")
+    add("none", None)
+    add("float", 0.5, 1.0, 2.0, 2.5, -1.0, 0.0, -0.0, 1e300, nan, inf, -inf)
+    add("bool", True, False)
+    F, D = fractions.Fraction, decimal.Decimal
+    add("rational", F(1, 2), F(2), F(-1, 3), F(0), F(5, 2), D("0.25"), D(3), D(-1), D(0), D("2.5"))
+    add("text", "1", "", "-1", b"1", b"")
+    add("sequence", (), (0,), (1, 2), [0], [])
+    add("other", 1j, Ellipsis, slice(None), slice(0, 1), range(2), {}, object())
+    add("index-object", *[IndexOnly(n) for n in (0, 1, 2, -1, -2, 7, -9, 2 ** 70, -2 ** 70)])
+    add("index-object-bad", IndexOnly(1.0), IndexOnly(None), IndexOnly("1"), IndexOnly(ValueError),
+        IndexOnly(TypeError), IndexOnly(ZeroDivisionError))
+    add("int-subclass", SubInt(0), SubInt(1), SubInt(-1), SubInt(2), SubInt(9), SubInt(-7),
+        SubIntOwnIndex(1), SubIntOwnIndex(-1), SubInt(2 ** 64))
+    add("huge-int", 2 ** 63, 2 ** 64, -2 ** 63 - 1, 10 ** 30, -10 ** 30, 2 ** 63 - 1, -2 ** 63)
+    if np is not None:
+        add("numpy-int", np.int8(1), np.int64(-1), np.uint8(2), np.int64(0), np.int32(7), np.int16(-9),
+            np.uint64(3), np.intp(1))
+        add("numpy-float", np.float64(0.3), np.float64(2.0), np.float32(1.0), np.float64(-1.0),
+            np.float64(0.0), np.float16(0.5), np.float64(nan), np.float64(inf), np.float32(-inf))
+        add("numpy-bool", np.bool_(True), np.bool_(False))
+    return out
+
+
+ODD_VALUES = _odd_values()
+ODD_COMMON = [cv for cv in ODD_VALUES if not cv[0].startswith("index-object")]
+
+# reserved strata (open findings): mechanism keys
+KEY_INDEXONLY = "odd:index-protocol-only-object-at-insert-pop-imul/TypeError"
+KEY_INFLEN = "odd:infinite-multiplier-on-list-trait-value/OverflowError"
+KEY_INDEXSTEP = "odd:index-protocol-only-unit-step-on-list-trait-value/ValueError"
+
+
+def int_magnitude(v):
+    """|n| when a list reads v as the integer n, else None"""
+    try:
+        return abs(operator.index(v))
+    except Exception:
+        return None
+
+
+def is_pos_inf(v):
+    try:
+        return bool(v == float("inf"))
+    except Exception:
+        return False
+
+
+def unsafe_multiplier(L, v):
+    """a multiplier that would make a non-empty list (or a careless implementation) allocate a
+    lot: only small ones and those a list refuses as too large for a size are used"""
+    if L == 0:
+        return False
+    mag = int_magnitude(v)
+    return mag is not None and 9 < mag < 2 ** 63
+
+
+def odd_reserved(flavour, L, op, label, v):
+    """name of the reserved stratum (one per open finding) this combination belongs to, or None"""
+    opname = op[0]
+    if label.startswith("index-object"):
+        if opname in ("insert", "pop", "imul"):
+            return "index"
+        if flavour == "tlo" and opname == "setitem" and label.split("+")[0].endswith("step"):
+            return "step"
+    if flavour == "tlo" and opname == "imul" and L > 0 and is_pos_inf(v):
+        return "inf"
+    return None
+
+
+def odd_extra_ok(flavour, L, op):
+    """a List trait value also has a length to keep legal (at most sys.maxsize items by default):
+    where the requested length is illegal and the list raises as well, either is accepted"""
+    if flavour == "tlo" and op[0] == "imul":
+        try:
+            if bool(L * op[1] > sys.maxsize):
+                return (TraitError,)
+        except Exception:
+            pass
+    return ()
+
+
+def rekey_index(complaint, rr, changed, events):
+    if complaint in ("traitlist-raises-list-does-not", "wrong-exception-class") \
+            and rr == ("exc", TypeError) and not changed and not events:
+        return KEY_INDEXONLY
+    return None
+
+
+def rekey_inf(complaint, rr, changed, events):
+    if complaint == "wrong-exception-class" and rr == ("exc", OverflowError) and not changed \
+            and not events:
+        return KEY_INFLEN
+    return None
+
+
+def rekey_step(complaint, rr, changed, events):
+    if complaint in ("traitlist-raises-list-does-not", "wrong-exception-class") \
+            and rr == ("exc", ValueError) and not changed and not events:
+        return KEY_INDEXSTEP
+    return None
+
+
+REKEY = {"index": rekey_index, "inf": rekey_inf, "step": rekey_step, None: None}
+
+ODD_SLICE_SHAPES = (("start", lambda v: ("s", v, None, None)), ("stop", lambda v: ("s", None, v, None)),
+                    ("step", lambda v: ("s", None, None, v)), ("start,step2", lambda v: ("s", v, None, 2)),
+                    ("stop,step-1", lambda v: ("s", None, v, -1)), ("1,step", lambda v: ("s", 1, None, v)))
+
+
+def n_selected(L, spec):
+    try:
+        return len(range(L)[slice(spec[1], spec[2], spec[3])])
+    except Exception:
+        return 1
+
+
+def odd_ops(L, flavour, cls, v):
+    """(label, op) for every operation taking a position / count / multiplier, given v there"""
+    coerce = flavour.endswith("coerce")
+    has_bad = flavour != "none"
+
+    def new(k):
+        if coerce:
+            return [(i if i % 2 else V(100 + i)) for i in range(k)]
+        return [V(100 + i) for i in range(k)]
+    N = new(1)[0]
+    lit = not isinstance(v, slice)       # a slice as the key is the ordinary slice operation
+    if lit:
+        yield cls, ("setitem_lit", v, N)
+        yield cls, ("delitem_lit", v)
+    yield cls, ("insert", v, N)
+    yield cls, ("pop", v)
+    if not unsafe_multiplier(L, v):
+        yield cls, ("imul", v)
+    yield cls, ("sort_rev", v)
+    if has_bad:
+        if lit:
+            yield cls, ("setitem_lit", v, BAD)
+        yield cls, ("insert", v, BAD)
+    if coerce:
+        if lit:
+            yield cls, ("setitem_lit", v, 7)
+        yield cls, ("insert", v, 7)
+    for pos, shape in ODD_SLICE_SHAPES:
+        spec = shape(v)
+        label = "%s@%s" % (cls, pos)
+        nsel = n_selected(L, spec)
+        yield label, ("delitem", spec)
+        for k in sorted({0, 1, nsel}):
+            yield label, ("setitem", spec, new(k))
+        if has_bad:
+            vb = new(max(nsel, 1))
+            vb[-1] = BAD
+            yield label, ("setitem", spec, vb)
+
+
+def random_odd_op(rng, L, flavour):
+    """(label, op) with an odd-typed argument outside the reserved strata, or None"""
+    coerce = flavour.endswith("coerce")
+    has_bad = flavour != "none"
+
+    def item():
+        r = rng.random()
+        if has_bad and r < 0.06:
+            return BAD
+        if coerce and r < 0.5:
+            return rng.randrange(64)
+        return V(rng.randrange(10 ** 6))
+    cls, v = rng.choice(ODD_VALUES)
+    kind = rng.choice(["setitem_lit", "delitem_lit", "insert", "pop", "imul", "sort_rev",
+                       "slice", "slice", "slice"])
+    if kind == "slice":
+        pos, shape = rng.choice(ODD_SLICE_SHAPES)
+        spec = shape(v)
+        if rng.random() < 0.5:
+            spec = (spec[0],) + tuple(rng.randint(-L - 2, L + 2) if c is None and rng.random() < 0.3 else c
+                                      for c in spec[1:])
+        label = "%s@%s" % (cls, pos)
+        if rng.random() < 0.25:
+            # a second odd component (any class but the index-protocol-only objects)
+            free = [i for i in (1, 2, 3) if spec[i] is None]
+            if free:
+                i = rng.choice(free)
+                cls2, v2 = rng.choice(ODD_COMMON)
+                spec = spec[:i] + (v2,) + spec[i + 1:]
+                label += "+" + cls2
+        if rng.random() < 0.3:
+            return label, ("delitem", spec)
+        if odd_reserved(flavour, L, ("setitem",), label, v):
+            return None
+        n = n_selected(L, spec) if rng.random() < 0.7 else rng.randint(0, 3)
+        return label, ("setitem", spec, [item() for _ in range(n)])
+    if odd_reserved(flavour, L, (kind,), cls, v) or (isinstance(v, slice) and kind.endswith("_lit")):
+        return None
+    if kind == "imul":
+        mag = int_magnitude(v)
+        if unsafe_multiplier(L, v) or (L > 30 and mag is not None and mag > 1):
+            return None
+        return cls, ("imul", v)
+    if kind in ("setitem_lit", "insert"):
+        return cls, (kind, v, item())
+    return cls, (kind, v)
 
 
 class HolderStatic(HasTraits):
@@ -833,5 +1134,72 @@ def run(ctx):
             continue
         try:
             reent_history(ctx, h, events)
+        finally:
+            ctx.end()
+    # ---- odd-typed index / count / multiplier arguments ----------------------
+    odd_strata(ctx, events)
+
+
+def odd_strata(ctx, events):
+    Lodd = ctx.scale(5, 8)
+    go = 0
+    for flavour in ("reject", "coerce", "none", "tlo", "inc", "q-reject", "q-coerce"):
+        for L in range(0, Lodd + 1):
+            if flavour in ("inc", "q-reject", "q-coerce") and L > Lodd - 1:
+                continue
+            batches = {None: [], "index": [], "inf": [], "step": []}
+            for cls, v in ODD_VALUES:
+                for label, op in odd_ops(L, flavour, cls, v):
+                    go += 1
+                    if ctx.mine(go // 32):
+                        batches[odd_reserved(flavour, L, op, label, v)].append((label, op))
+            for stratum, batch in batches.items():
+                name = "odd" if stratum is None else "oddx-" + stratum
+                if not batch and stratum is not None:
+                    continue
+                if not ctx.begin("%s:%s:%d" % (name, flavour, L), {"flavour": flavour, "L": L, "ops": len(batch)}):
+                    continue
+                try:
+                    for label, op in batch:
+                        items = [mkitem(i) for i in range(L)]
+                        tl, holder = make(flavour, items, events)
+                        model = list(tl)
+                        check_one(ctx, flavour, tl, model, op, events, holder, odd=label,
+                                  extra_ok=odd_extra_ok(flavour, L, op), rekey=REKEY[stratum])
+                        ctx.count("odd_evaluations" if stratum is None else "odd_reserved_%s_evaluations" % stratum)
+                        if label.startswith("numpy"):
+                            ctx.count("odd_numpy_evaluations")
+                        if "@" in label:
+                            ctx.count("odd_slice_component_evaluations")
+                    if batch and stratum is None:
+                        ctx.sample({"flavour": flavour, "L": L, "odd_op": batch[len(batch) // 2][1]})
+                finally:
+                    ctx.end()
+    # ---- random histories in which about half of the operations carry an odd argument ----
+    nh = ctx.scale(2400, 200000)
+    for h in range(nh):
+        if not ctx.mine(h):
+            continue
+        if not ctx.begin("oddhist:%d" % h):
+            continue
+        try:
+            rng = ctx.rng("oddhist", h)
+            flavour = rng.choice(["reject", "coerce", "tlo", "tlo", "none", "inc", "q-reject", "q-coerce"])
+            L0 = rng.randint(0, 6)
+            items = [mkitem(i) for i in range(L0)]
+            tl, holder = make(flavour, items, events)
+            model = list(tl)
+            for step in range(25):
+                L = len(model)
+                lo = random_odd_op(rng, L, flavour) if rng.random() < 0.55 else None
+                if lo is None:
+                    ctx.count("history_ops")
+                    if check_one(ctx, flavour, tl, model, random_op(rng, L, flavour), events, holder):
+                        break
+                    continue
+                ctx.count("odd_history_ops")
+                if check_one(ctx, flavour, tl, model, lo[1], events, holder, odd=lo[0],
+                             extra_ok=odd_extra_ok(flavour, L, lo[1])):
+                    break
         finally:
             ctx.end()
